@@ -639,6 +639,138 @@ Proof.
       [apply get_default_owner | apply get_host_owner]; exact H.
 Qed.
 
+(** ---- the hosts [clear_response_caches] / [clear_file_caches] walk over ------------------------
+    The map as a list: every key occurs once, and a [Host] value sits under its own name. *)
+Definition uniq (m : hmap) : Prop := forall k v, In (k, v) m -> hm_get k m = Some v.
+Definition hostkeys (m : hmap) : Prop := forall k h, In (k, HHost h) m -> k = hname h.
+
+Lemma hm_get_in k v m : hm_get k m = Some v -> In (k, v) m.
+Proof.
+  induction m as [|[k0 v0] m IH]; cbn [hm_get]; [discriminate|].
+  destruct (beq k0 k) eqn:E.
+  - intros Hv. inversion Hv; subst. apply beq_eq in E. subst. left. reflexivity.
+  - intros Hv. right. apply IH. exact Hv.
+Qed.
+
+Lemma in_remove k k' v m : In (k', v) (hm_remove k m) -> In (k', v) m /\ beq k k' = false.
+Proof.
+  induction m as [|[k0 v0] m IH]; cbn [hm_remove]; [intros []|].
+  destruct (beq k0 k) eqn:E.
+  - intros Hin. apply IH in Hin as [Hin Hb]. split; [right; exact Hin | exact Hb].
+  - intros [Heq|Hin].
+    + inversion Heq; subst. split; [left; reflexivity|]. rewrite beq_sym. exact E.
+    + apply IH in Hin as [Hin Hb]. split; [right; exact Hin | exact Hb].
+Qed.
+
+Lemma uniq_insert k v m : uniq m -> uniq (hm_insert k v m).
+Proof.
+  intros Hu k' v' Hin. rewrite hm_get_insert. unfold hm_insert in Hin. destruct Hin as [Heq|Hin].
+  - inversion Heq; subst. rewrite beq_refl. reflexivity.
+  - apply in_remove in Hin as [Hin Hb]. rewrite beq_sym, Hb. apply Hu. exact Hin.
+Qed.
+
+Lemma hostkeys_insert k v m : (forall h, v = HHost h -> k = hname h) -> hostkeys m -> hostkeys (hm_insert k v m).
+Proof.
+  intros Hv Hk k' h Hin. unfold hm_insert in Hin. destruct Hin as [Heq|Hin].
+  - inversion Heq; subst. apply Hv. reflexivity.
+  - apply in_remove in Hin as [Hin _]. apply (Hk _ _ Hin).
+Qed.
+
+Lemma inv_insert_alts name alts : forall m, uniq m /\ hostkeys m -> uniq (insert_alts name alts m) /\ hostkeys (insert_alts name alts m).
+Proof.
+  unfold insert_alts. induction alts as [|a alts IH]; intros m Hm; cbn [fold_left]; [exact Hm|].
+  apply IH. destruct Hm as [Hu Hk]. split; [apply uniq_insert; exact Hu|].
+  apply hostkeys_insert; [intros h E; discriminate | exact Hk].
+Qed.
+
+Lemma inv_insert_maps hs : forall id m, uniq m /\ hostkeys m -> uniq (insert_maps id hs m) /\ hostkeys (insert_maps id hs m).
+Proof.
+  induction hs as [|h rest IH]; intros id m Hm; cbn [insert_maps]; [exact Hm|].
+  apply IH. unfold insert_map.
+  destruct (inv_insert_alts (h_name h) (h_alts h) m Hm) as [Hu Hk].
+  split; [apply uniq_insert; exact Hu|].
+  apply hostkeys_insert; [|exact Hk]. intros h0 E. inversion E. reflexivity.
+Qed.
+
+Lemma built_map_inv ops c : build ops = Ok c -> uniq (c_by_name c) /\ hostkeys (c_by_name c).
+Proof.
+  intros H. apply build_from_ok in H as [Hm _]. cbn [empty_collection c_by_name] in Hm. rewrite Hm.
+  apply inv_insert_maps. split; intros k v [].
+Qed.
+
+(** a host that owns its own name is stored under it *)
+Lemma owner_own_stored hs : forall id m n r,
+  owner id hs n = Some r -> hname r = n -> hm_get n (insert_maps id hs m) = Some (HHost r).
+Proof.
+  induction hs as [|h rest IH]; intros id m n r Ho Hn; cbn [owner insert_maps] in *; [discriminate|].
+  destruct (owner (S id) rest n) as [r'|] eqn:E.
+  - inversion Ho; subst r'. apply IH; [exact E | exact Hn].
+  - destruct (named n h) eqn:Hnamed; [|discriminate].
+    destruct (owner (S id) rest (h_name h)) as [r'|] eqn:E2.
+    + exfalso. inversion Ho; subst r'.
+      destruct (owner_is_host _ _ _ _ E2) as [h0 [_ [Hnth Hname]]].
+      rewrite owner_none_iff in E. specialize (E h0 (nth_error_In _ _ Hnth)).
+      rewrite <- Hn, Hname, named_own in E. discriminate.
+    + inversion Ho; subst r. cbn [hname] in Hn. subst n.
+      destruct (resolve_insert_maps rest (S id) (insert_map id h m) (h_name h)) as [_ H2].
+      rewrite (H2 E), get_insert_map, beq_refl. reflexivity.
+Qed.
+
+Lemma stored_hosts_in c h : hostkeys (c_by_name c) ->
+  In h (stored_hosts c) <-> In (hname h, HHost h) (c_by_name c).
+Proof.
+  intros Hk. unfold stored_hosts. rewrite in_flat_map. split.
+  - intros [[k v] [Hin Hh]]. cbn [snd] in Hh. destruct v as [h'|r]; [|destruct Hh].
+    destruct Hh as [->|[]]. rewrite <- (Hk _ _ Hin). exact Hin.
+  - intros Hin. exists (hname h, HHost h). split; [exact Hin | left; reflexivity].
+Qed.
+
+(** [clear_response_caches(filter)] reaches exactly the hosts the specification names *)
+Lemma clear_all_targets_spec ops c flt i : build ops = Ok c ->
+  existsb (fun h => Nat.eqb (hid h) i) (clear_all_targets c flt) = cleared_by_all ops flt i.
+Proof.
+  intros H. destruct (built_map_inv _ _ H) as [Hu Hk].
+  pose proof (build_from_ok _ _ _ _ H) as [Hm _]. cbn [empty_collection c_by_name] in Hm.
+  apply Bool.eq_iff_eq_true. rewrite existsb_exists. unfold clear_all_targets, cleared_by_all. split.
+  - intros [h [Hin Hi]]. apply filter_In in Hin as [Hin Hf]. apply Nat.eqb_eq in Hi.
+    apply (stored_hosts_in _ _ Hk) in Hin. apply Hu in Hin.
+    assert (Hown : own ops (hname h) = Some h).
+    { pose proof (get_host_owner _ _ (hname h) H) as Hg. unfold get_host in Hg.
+      rewrite (resolve_host _ _ _ _ Hin) in Hg. inversion Hg. reflexivity. }
+    destruct (owner_is_host _ _ _ _ Hown) as [hc [_ [Hnth Hname]]]. rewrite Nat.sub_0_r, Hi in Hnth.
+    fold (hosts_of ops). rewrite Hnth. rewrite <- Hname. fold (own ops (hname h)). rewrite Hown.
+    rewrite Hf, Hi, Nat.eqb_refl. reflexivity.
+  - fold (hosts_of ops). destruct (nth_error (hosts_of ops) i) as [hc|] eqn:Hnth; [|discriminate].
+    intros Hb. apply andb_prop in Hb as [Hf Ho].
+    fold (own ops (h_name hc)) in Ho. destruct (own ops (h_name hc)) as [r|] eqn:Hown; [|discriminate].
+    apply Nat.eqb_eq in Ho.
+    destruct (owner_is_host _ _ _ _ Hown) as [h0 [_ [Hnth0 Hname]]]. rewrite Nat.sub_0_r, Ho, Hnth in Hnth0.
+    inversion Hnth0; subst h0.
+    exists r. split; [|apply Nat.eqb_eq; exact Ho].
+    apply filter_In. split.
+    + apply (stored_hosts_in _ _ Hk). apply hm_get_in. rewrite Hm, Hname.
+      apply owner_own_stored; [exact Hown | exact Hname].
+    + rewrite Hname. exact Hf.
+Qed.
+
+Lemma clear_all_targets_members ops c flt i : build ops = Ok c ->
+  In i (map hid (clear_all_targets c flt)) <-> cleared_by_all ops flt i = true.
+Proof.
+  intros H. rewrite <- (clear_all_targets_spec _ _ _ _ H), existsb_exists, in_map_iff. split.
+  - intros [h [Hi Hin]]. exists h. split; [exact Hin | apply Nat.eqb_eq; exact Hi].
+  - intros [h [Hin Hi]]. exists h. split; [apply Nat.eqb_eq; exact Hi | exact Hin].
+Qed.
+
+(** [clear_page] / [clear_file]: the host the specification names *)
+Lemma clear_target_reference ops c name : build ops = Ok c ->
+  omap hid (clear_target V1 c name) = Ok (clear_reference ops name).
+Proof.
+  intros H. rewrite (clear_target_general _ _ _ H). unfold clear_reference, is_default_name, dflt_owner, own, hosts_of.
+  cbn [omap]. destruct (beq name [] || beq name s_default); [|reflexivity].
+  destruct (default_index O ops) as [d|]; [|reflexivity].
+  destruct (nth_error (map snd ops) d); reflexivity.
+Qed.
+
 (** ---- refutations of the snapshot (V0) ------------------------------------------------------ *)
 Definition cfg (name : bytes) (alts : list bytes) : hostcfg := {| h_name := name; h_alts := alts |}.
 
